@@ -16,8 +16,11 @@ Definition pcall : parser callargs :=
 Definition eviews (L : nat) (w : wavefront (GRS L)) : list Z :=
   [fst (wshape w); snd (wshape w)] ++ eresult (earr L) (wfield w) ++ eresult (earr L) (wintensity w).
 
+(* fields may carry angular tilt (per-segment tilts); for fields without tilt this is the untilted call
+   (SegmentP.propagate_dft_shift_ext, ang_shift_untilted) *)
 Definition call (L : nat) (w : wavefront (GRS L)) (c : callargs) : result (wavefront (GRS L)) :=
-  propagate_dft (S := GRS L) (fun _ => gr1 L) (@no_shift (GRS L)) w (c_dur c) (c_duc c) (c_shape c) (c_pshape c) (c_os c) None.
+  propagate_dft (S := GRS L) (fun _ => gr1 L) (ang_shift (wfocal w) (c_dur c) (c_duc c) (c_os c)) w
+                (c_dur c) (c_duc c) (c_shape c) (c_pshape c) (c_os c) None.
 
 (* one description of the chain: planes (constructor results), then the call *)
 Fixpoint chain_r (L : nat) (ps : list (result (plane (GRS L)))) (w : pwf (GRS L)) : result (pwf (GRS L)) :=
@@ -44,6 +47,10 @@ Definition run (inp : list Z) : list Z :=
       | Some (lam, segs, monos, c) =>
           let w0 := pwf_init lam PixNone None [] in
           0 :: variant L w0 segs c ++ variant L w0 monos c
+      | None => emalformed end
+    else if op =? 4 then   (* one segmented pupil with per-segment tilts: the views after the propagation *)
+      match pall (lam <- pQ ;; segs <- plist (p_plane L) ;; c <- pcall ;; pret (lam, segs, c)) rest with
+      | Some (lam, segs, c) => 0 :: variant L (pwf_init lam PixNone None []) segs c
       | None => emalformed end
     else if op =? 2 then
       match pall (lam <- pQ ;; dxr <- pQ ;; dxc <- pQ ;; z <- pQ ;; g <- parr L ;;
